@@ -71,6 +71,7 @@ fn new_node<'gc>(mc: &Mutation<'gc>, gid: u32) -> NodeGc<'gc> {
                 leaf: Lock::new(None),
                 wl: Lock::new(None),
                 cell: Lock::new(None),
+                held: Default::default(),
             },
         )
     });
@@ -756,8 +757,8 @@ impl World {
                 }
             }
             K::CloneH => {
-                let hs = &self.hs;
-                let Caught::Done(h) = guarded("DynamicRoot::clone", || hs[op.a as usize].as_ref().unwrap().clone())? else { unreachable!() };
+                let hs: &World = self;
+                let Caught::Done(h) = guarded("DynamicRoot::clone", || hs.href(op.a as usize).unwrap().clone())? else { unreachable!() };
                 self.hs[op.b as usize] = Some(h);
                 self.sh.handles[op.b as usize] = self.sh.handles[op.a as usize];
             }
@@ -780,7 +781,7 @@ impl World {
             K::FetchRoot => {
                 let (t, set, _) = self.sh.handles[op.a as usize].unwrap();
                 self.with_root(0, |w, _, root, _| {
-                    let g = root.sets[set as usize].unwrap().fetch(w.hs[op.a as usize].as_ref().unwrap());
+                    let g = root.sets[set as usize].unwrap().fetch(w.href(op.a as usize).unwrap());
                     if w.id_of_addr(Gc::as_ptr(g) as usize) != Some(t) {
                         viol!("c14.fetch_identity", "fetch of handle {} did not return the stashed object {t}", op.a);
                     }
@@ -792,7 +793,7 @@ impl World {
             K::FetchLink => {
                 let (t, set, _) = self.sh.handles[op.a as usize].unwrap();
                 self.with_mutate(|w, mc, root, m| {
-                    let g = root.sets[set as usize].unwrap().fetch(w.hs[op.a as usize].as_ref().unwrap());
+                    let g = root.sets[set as usize].unwrap().fetch(w.href(op.a as usize).unwrap());
                     if w.id_of_addr(Gc::as_ptr(g) as usize) != Some(t) {
                         viol!("c14.fetch_identity", "fetch of handle {} did not return the stashed object {t}", op.a);
                     }
@@ -933,6 +934,18 @@ impl World {
             K::SetPacing => {
                 self.metrics.set_pacing(pacing_table(op.a));
                 self.pacing_idx = op.a;
+            }
+            K::Lend => {
+                let h = self.incoming.take().expect("incoming handle");
+                let r = self.with_mutate(move |w, _, _, m| {
+                    let n = w.node(m, op.b);
+                    let mut slot = n.held.borrow_mut();
+                    *slot = Some(h);
+                    Ok(slot.as_ref().unwrap() as *const H)
+                })?;
+                let Caught::Done(p) = r else { viol!("api.panic", "unexpected injected panic") };
+                self.lent_out = Some(p);
+                self.sh.objs[op.b as usize].held = Some(op.a);
             }
             K::DropArena | K::PresentForeign => unreachable!("product-only operation"),
         }
